@@ -13,9 +13,11 @@ C(name, ok) == <<name, ok>>
 SideFun(sc) == [k \in {<<sc[i][1], sc[i][2]>> : i \in DOMAIN sc} |-> (CHOOSE i \in DOMAIN sc : <<sc[i][1], sc[i][2]>> = k) ]
 ObsSide(sc) == [k \in {<<sc[i][1], sc[i][2]>> : i \in DOMAIN sc} |-> sc[CHOOSE i \in DOMAIN sc : <<sc[i][1], sc[i][2]>> = k][3]]
 \* reads are checked on the CURRENT (unprimed) state, in a step of their own (a line "dynreads" follows every call)
-Reads(o) ==
+\* (in the default configuration exists() goes through FindInAll - levels backed by constants included; in another
+\*  configuration the path finder of that configuration is asked, which only knows entities that have a path)
+Reads(o, dflt) ==
   << C("reads_noraise", \A i \in DOMAIN o.exists : o.exists[i][4] = ""),
-     C("exists", \A i \in DOMAIN o.exists : o.exists[i][2] = ExistsS(o.exists[i][1])),
+     C("exists", \A i \in DOMAIN o.exists : o.exists[i][2] = (ExistsS(o.exists[i][1]) /\ (dflt \/ PathOf(o.exists[i][1]) # <<>>))),
      C("find_ancestors", \A i \in DOMAIN o.exists : o.exists[i][3] = (ExistsS(o.exists[i][1]) /\ PathOf(o.exists[i][1]) # <<>>)),
      C("data", \A i \in DOMAIN o.data : {<<o.data[i][2][k][1], o.data[i][2][k][2]>> : k \in DOMAIN o.data[i][2]}
                                          = {<<DataOf(o.data[i][1])[k][1], DataOf(o.data[i][1])[k][2]>> : k \in DOMAIN DataOf(o.data[i][1])}),
@@ -28,7 +30,7 @@ StepClauses(e) == LET o == e.obs IN
 FreshClauses(e) == LET o == e.obs IN
   << C("fresh_process_data", \A i \in DOMAIN o.data : {<<o.data[i][2][k][1], o.data[i][2][k][2]>> : k \in DOMAIN o.data[i][2]}
                                          = {<<DataOf(o.data[i][1])[k][1], DataOf(o.data[i][1])[k][2]>> : k \in DOMAIN DataOf(o.data[i][1])}),
-     C("fresh_process_exists", \A i \in DOMAIN o.exists : o.exists[i][2] = ExistsS(o.exists[i][1])) >>
+     C("fresh_process_exists", \A i \in DOMAIN o.exists : o.exists[i][2] = (ExistsS(o.exists[i][1]) /\ (e.call.default \/ PathOf(o.exists[i][1]) # <<>>))) >>
 Note(f) == fails' = IF f = <<>> \/ Len(fails) >= Cap THEN fails ELSE Append(fails, <<l, [i \in DOMAIN f |-> f[i][1]]>>)
 Failed(cl) == SelectSeq(cl, LAMBDA c : ~c[2])
 TrReset == /\ Tr[l].call.op = "dynreset"
@@ -39,7 +41,7 @@ TrStep == /\ Tr[l].call.op = "dyn"
           /\ Note(Failed(StepClauses(Tr[l])))
 TrReads == /\ Tr[l].call.op = "dynreads"
            /\ UNCHANGED <<tree, side, hist, last>>
-           /\ Note(Failed(Reads(Tr[l].obs)))
+           /\ Note(Failed(Reads(Tr[l].obs, Tr[l].call.default)))
 TrFresh == /\ Tr[l].call.op = "dynfresh"
            /\ UNCHANGED <<tree, side, hist, last>>
            /\ Note(Failed(FreshClauses(Tr[l])))
